@@ -16,10 +16,10 @@ PID = "C14"
 THEOREMS = ["processSlice_spec", "processScalar_spec", "slice_rows", "tableGet_part", "selector_slice_rows",
             "selector_scalar_row", "selector_slice_labels", "column_selection_commutes", "column_selection_commutes_one",
             "annotate_correct", "annotateSpec_ok", "annotate_selector_correct", "annotate_forms_agree",
-            "annotate_empty", "pixels_join_slice", "chrom_decode_agree", "chrom_decode_agree_frames",
+            "selector_slice_rows_wide", "annotate_empty", "pixels_join_slice", "chrom_decode_agree", "chrom_decode_agree_frames",
             "legacy_substring_rule_violates"]
 LEVELS = {"select": "top", "commutes": "top", "annotate": "top", "chrom_decode": "top",
-          "process_slice": "unit"}
+          "process_slice": "unit", "sequence": "top"}
 DESCRIBE = {
     "select": "Cooler.chroms()/bins()/pixels(join)[cols][key] for every in-domain row key vs Lean `Selector.getRows` "
               "(= L0 `(whole.project cols).part a b`, theorems slice_rows / selector_slice_rows / column_selection_commutes): "
@@ -31,6 +31,9 @@ DESCRIBE = {
     "chrom_decode": "bins/chrom rewritten as plain int32: Cooler.bins()[cols][key] vs Lean `binsGet` on the integer "
                     "encoding and vs the enum-encoded file (theorem chrom_decode_agree)",
     "process_slice": "_IndexingMixin._process_slice(key, n) vs Lean `processKey` (theorems processSlice_spec, processScalar_spec)",
+    "sequence": "call sequence in one process on one path: read bins / annotate, then rename_chroms (or another cooler written "
+                "over the path), read again with the same and a fresh Cooler — each read vs Lean `Selector.getRows` / `annotate` "
+                "on the tables stored at that moment; enum- and integer-encoded bins/chrom",
 }
 RULE = ("stores: every bins-per-chromosome layout with 1-3 chromosomes and n <= 4 (quick) / <= 5 (thorough) bins plus seeded "
         "random layouts up to n = 6 / 8, nnz <= 5 / 7, float bin column `weight` with NaNs, integer bin column `mychrom`, "
@@ -39,7 +42,10 @@ RULE = ("stores: every bins-per-chromosome layout with 1-3 chromosomes and n <= 
         "(nnz for the pixel table); annotate: every sequence of <= 3 stored pixels (every sub-multiset in every order), "
         "long repeated lists (more pixels than bins), custom index labels, int/uint id dtypes, replace both ways, "
         "bins as whole frame, selector, selector with a column list, and every contiguous part containing the needed "
-        "ids (every part at all for an empty pixel list); non-trivial = table with >= 2 rows / >= 1 pixel; distinct by canonical JSON")
+        "ids (every part at all for an empty pixel list); pixel frames carry an int64/int32/uint Index, pandas' default "
+        "RangeIndex, or the RangeIndex of a positional slice / reversal / stride (`df.iloc[a:b]`, `[::-1]`, `[::2]`) and the "
+        "result's INDEX is compared; call sequences read-rename-read and read-overwrite-read on one path in one process for "
+        "enum- and integer-encoded chromosome columns; non-trivial = table with >= 2 rows / >= 1 pixel; distinct by canonical JSON")
 EXHAUSTIVE = {"quick": True, "thorough": True}
 TRUSTED = ["h5py: `dset[lo:hi]` has Python slice semantics; `grp.keys()` order; enum header read with check_dtype",
            "pandas: `df.loc[a:b]` on an increasing integer index = positions searchsorted(a,'left')..searchsorted(b,'right'); "
@@ -492,8 +498,69 @@ def _process_slice(case):
     return None
 
 
+def _sequence(case):
+    """one process, one path: read the bin table, change the chromosome names stored at that path
+    (`cooler.rename_chroms`, or another cooler written over it), read again — every read must show what is
+    stored NOW (the model is evaluated on the raw tables re-read after the change)"""
+    spec, intchrom, mode = case["store"], case["intchrom"], case["mode"]
+    _COUNTER[0] += 1
+    path = os.path.join(gen.tmpdir(), f"c14-seq-{os.getpid()}-{_COUNTER[0]}.cool")
+    bad = []
+
+    def observe(phase, coolers):
+        st = read_store(path)
+        n, nnz = st["n"]["bins"], st["n"]["pixels"]
+        reads = [("bins", [], ["s", None, None]), ("bins", ["chrom"], ["s", 1 if n > 1 else 0, None]),
+                 ("bins", [["chrom", "end"]], ["k", -1]), ("bins", [["start", "chrom"]], ["s", None, n + 1]),
+                 ("chroms", [], ["s", None, None]), ("pixels", [], ["s", None, None])]
+        for who, c in coolers:
+            for table, colkeys, key in reads:
+                join = table == "pixels"
+                args = {"src": table, "table": st[table], "nmax": st["n"][table], "colkeys": colkeys, "keys": [keyj(key)]}
+                if table == "bins":
+                    args["names"] = st["names"]
+                if join:
+                    args["join"], args["bins"] = True, st["bins"]
+                a = drv().ask("C14.select", **args)[0]
+                sel = _apply_colkeys(_selector(c, table, join), colkeys)
+                impl = guarded_frame(lambda: sel[pykey(key)])
+                if not same_result(impl, a["model"]):
+                    bad.append({"phase": phase, "cooler": who, "read": [table, colkeys, key], "impl": impl, "model": a["model"]})
+            # annotation against the selector and against the frame materialised from it
+            pixels = c.pixels()[:]
+            pxj = framej(pixels)
+            forms = ["selector", "whole"]
+            ans = drv().ask("C14.annotate", table=st["bins"], names=st["names"], fields=None, pixels=pxj,
+                            replace=False, forms=forms)
+            for form, a in zip(forms, ans):
+                bins = c.bins() if form == "selector" else c.bins()[:]
+                impl = guarded_frame(lambda: cooler.annotate(pixels, bins, replace=False))
+                if nnz and a["model"] != a["spec"]:
+                    raise AssertionError(f"L1 != L0 for annotate form {form}")
+                if not same_result(impl, a["model"]):
+                    bad.append({"phase": phase, "cooler": who, "read": ["annotate", form], "impl": impl, "model": a["model"]})
+
+    try:
+        write_store(path, spec, intchrom)
+        c = cooler.Cooler(path)
+        observe("before", [("first", c)])
+        if mode == "rename":
+            cooler.rename_chroms(c, case["rename"])
+            observe("after rename_chroms", [("same object", c), ("fresh object", cooler.Cooler(path))])
+        else:
+            os.unlink(path)
+            write_store(path, case["store2"], intchrom)
+            observe("after another cooler was written to the path", [("fresh object", cooler.Cooler(path))])
+    finally:
+        if os.path.exists(path):
+            os.unlink(path)
+    if bad:
+        return {"mismatch": True, "n_reads_failing": len(bad), "first": bad[:3]}
+    return None
+
+
 CHECKS = {"select": _select, "commutes": _commutes, "annotate": _annotate, "chrom_decode": _chrom_decode,
-          "process_slice": _process_slice}
+          "process_slice": _process_slice, "sequence": _sequence}
 
 
 # ----------------------------------------------------------------------------------------------
@@ -644,6 +711,15 @@ def cases(tier, rng):
                 subsets = rng.sample(subsets, min(6, len(subsets)))
             for s in subsets:
                 yield "commutes", {"store": spec, "table": table, "cols": s}
+    # call sequences: names stored at a path change between two reads of the same process
+    for si, spec in enumerate(stores if thorough else stores[::2]):
+        k = len(spec["sizes"])
+        renames = [{gen.chromname(0): "zz"}, {gen.chromname(k - 1): "a_renamed", gen.chromname(0): "c9"}]
+        spec2 = dict(spec)
+        spec2["prefix"] = "other"
+        for intchrom in (False, True):
+            yield "sequence", {"store": spec, "intchrom": intchrom, "mode": "rename", "rename": renames[si % 2]}
+            yield "sequence", {"store": spec, "intchrom": intchrom, "mode": "replace", "store2": spec2}
     # annotate: on every small layout in thorough, on a spread of them in quick
     ann_stores = stores if thorough else stores[::3] + stores[-2:]
     for spec in ann_stores:
@@ -659,6 +735,8 @@ def nontrivial(name, case):
         return case["n"] >= 2
     if name == "annotate":
         return len(case["rows"]) >= 1
+    if name == "sequence":
+        return True
     spec = case["store"]
     n = {"chroms": len(spec["sizes"]), "bins": sum(spec["sizes"]), "pixels": len(spec["pixels"])}[case["table"]]
     return n >= 2
@@ -669,6 +747,8 @@ def distribution(name, case):
         yield f"annotate.npixels={min(len(case['rows']), 4)}{'+' if len(case['rows']) > 4 else ''}"
         yield f"annotate.idtype={case.get('idtype', 'int64')}"
         yield f"annotate.index_kind={case.get('index_kind', 'int64')}"
+    elif name == "sequence":
+        yield f"sequence.{case['mode']}.{'int' if case['intchrom'] else 'enum'}"
     elif "store" in case:
         yield f"{name}.table={case['table']}"
         yield f"stores.nbins={sum(case['store']['sizes'])}"
@@ -686,7 +766,7 @@ def shrink(name, case):
     if name == "annotate":
         rows = case["rows"]
         for k in range(len(rows)):
-            if len(rows) > 1:
+            if len(rows) > 1 and case.get("index_kind", "int64") not in ("iloc", "range", "default"):
                 yield {**case, "rows": rows[:k] + rows[k + 1:], "index": case["index"][:k] + case["index"][k + 1:]}
         spec = case["store"]
         ids = [r[j] for r in rows for j, nm in enumerate(case["cols"]) if nm in ("bin1_id", "bin2_id")]
